@@ -566,6 +566,7 @@ MODE_FUN = {
     "snap": ("Model.SnapServer", "run_snap"), "spec12": ("Spec.SpecRunWire", "run_spec12"),
     "model04": ("Model.ScriptExpiry", "run_model04"), "spec04": ("Spec.SpecRunExpiry", "run_spec04"),
     "conc": ("Model.ConcRun", "run_conc_script"), "raft": ("Model.RaftRun", "run_raft"),
+    "spec01": ("Spec.SpecRunKV", "run_spec01"),
 }
 
 def _coq_str(s):
